@@ -136,6 +136,8 @@ def trace_update(repo, sc) -> Trace:
             return Opaque("self.probe_points") if sc["probes"] else None
         if text == "self.use_cupy":
             return False
+        if text == "running_state.step":
+            return 3                          # the cursor of the record buffer: restarts at every save, unrelated to the solve step
         if text.endswith("options.include_screening"):
             return sc["screening"]
         if text.endswith("options.adaptive"):
